@@ -34,6 +34,18 @@ class C15Episode(Episode):
         self.ini_path = os.path.join(d, 'circus.ini')
         self.write_ini(self.cfg['file'])
         self.world.build_from_ini(self.ini_path)
+        self.clients = []
+        self.lsocks = []
+        self.pending_conn = False
+        self.accept_seq = -1
+        self.ondemand_markers = set()
+        if self.cfg.get('ondemand'):
+            # one watcher of the file is started by a socket event, outside
+            # the command lock
+            self.lsocks = [self.world.arbiter.sockets['ondemand']]
+            self.ondemand_markers = set(
+                marker_of(w['name']) for w in self.cfg['file'] if w.get('od'))
+            self.world.kernel.on_spawn = self.accept_for
         # reference model: lower name -> {'name', 'nostop'}
         self.model = dict((w['name'].lower(), {'name': w['name']})
                           for w in self.cfg['file'])
@@ -47,9 +59,16 @@ class C15Episode(Episode):
                        'cmd': 'worker --marker=%s' % marker_of(w['name']),
                        'numprocesses': w.get('np', 1),
                        'graceful_timeout': w.get('g', 0.05)})
+            if w.get('od'):
+                ws[-1].update({'on_demand': True, 'use_sockets': True,
+                               'warmup_delay': 1})
+        socks = []
+        if self.cfg.get('ondemand'):
+            socks = [{'name': 'ondemand', 'path': os.path.join(
+                os.path.dirname(self.ini_path), 'od.sock')}]
         with open(self.ini_path, 'w') as f:
             f.write(ini.render(circus={'check_delay': self.cfg.get(
-                'check_delay', 1.0)}, watchers=ws))
+                'check_delay', 1.0)}, watchers=ws, sockets=socks))
 
     # ------------------------------------------------------------------ ops
     def op_c15(self, i, op):
@@ -375,6 +394,24 @@ class C15(Prop):
                 {'op': 'c15', 'kind': 'rm', 'name': nm,
                  'case': rng.choice([None, 'upper']), 'nostop': False,
                  'nowait': rng.random() < 0.7}]
+        if cfg['file'] and rng.random() < 0.08:
+            # an on-demand watcher whose start (begun by the periodic check
+            # after a connection, outside the command lock) is still pacing
+            # its spawns when it is removed
+            w0 = rng.choice(cfg['file'])
+            w0['od'] = True
+            w0['np'] = 3
+            cfg['ondemand'] = True
+            ops[0:0] = [
+                {'op': 'connect', 's': 0, 'place': 'now'},
+                {'op': 'wait', 'kind': 'time',
+                 'n': cfg['check_delay'] + rng.choice([0.2, 0.4, 1.3])},
+                {'op': 'c15', 'kind': 'rm', 'name': w0['name'],
+                 'case': rng.choice([None, 'upper']), 'nostop': False,
+                 'nowait': False},
+                {'op': 'wait', 'kind': 'time', 'n': 3.0},
+                {'op': 'c15', 'kind': 'stop', 'name': 'nobody', 'case': None,
+                 'nowait': False, 'glob': False}]
         return {'cfg': cfg, 'ops': ops}
 
     def run(self, case):
